@@ -2,7 +2,9 @@
 
 from __future__ import annotations
 
+import contextlib
 import gc
+import io
 import json
 import multiprocessing as mp
 import weakref
@@ -84,7 +86,13 @@ class JournalReplayer:
             try:
                 raise ValueError("thrown from inside the journal block")
             except ValueError as e:
-                j.__exit__(type(e), e, e.__traceback__)
+                swallowed = j.__exit__(type(e), e, e.__traceback__)
+            if swallowed:
+                # a context manager whose __exit__ returns a true value suppresses the exception: the program
+                # inside the journal would continue where the program without one raises
+                self.finding("C20", "C20:transparent:exception-suppressed", rec, row, returned=repr(swallowed),
+                             message="leaving a journal by an exception suppresses the exception (Journal.__exit__ "
+                                     f"returned {swallowed!r})")
         else:
             j.__exit__(None, None, None)
         want = snaps.pop()
@@ -211,6 +219,25 @@ class JournalReplayer:
             if journals:
                 refs = [weakref.ref(x) for x in u.nodes + u.values + u.graphs]
                 keep = journals  # noqa: F841 - journals (and their entries) stay alive on purpose
+                if self.stats["states"] % 2:
+                    # reading the journal (every public accessor of the entries, the displays) while the objects
+                    # are alive must not make the entries hold on to them
+                    sink = io.StringIO()
+                    with contextlib.redirect_stdout(sink), contextlib.redirect_stderr(sink):
+                        for j in journals:
+                            for e in j.entries:
+                                for attr in ("obj", "ref", "class_", "class_name", "operation", "details", "timestamp", "stack_trace"):
+                                    getattr(e, attr, None)
+                                repr(e)
+                                try:
+                                    e.display()
+                                except Exception:  # noqa: BLE001 - display problems are not what is judged here
+                                    pass
+                            try:
+                                j.display()
+                            except Exception:  # noqa: BLE001
+                                pass
+                    del sink
                 self.unwind(active, snaps)
                 del u
                 gc.collect()
